@@ -245,11 +245,23 @@ class Scheduler(object):
             # for a while with half of the data out
             self.stats['stalled_writes'] += 1
             self.w.fired('sendall_stalled_midway')
+            us = int(st['us'])
+            tmo = sock._st.timeout
+            timed_out = tmo is not None and us > tmo * 1e6
+            if timed_out:
+                us = int(tmo * 1e6)
             me.state = 'sleep'
-            me.deadline = self.w.now + int(st['us'])
+            me.deadline = self.w.now + us
             self.switch_away(me)
             me.state = 'runnable'
             me.deadline = None
+            if timed_out:
+                # a socket with a time-out gives up on the rest: half of the
+                # data is out, the caller gets socket.timeout
+                self.w.fired('sendall_timeout_after_partial_write')
+                self.stats['split_writes'] += 1
+                self.stats['split_writes:%d' % me.tid] += 1
+                raise W._real_socket.timeout('timed out')
         else:
             self.yield_point('sendall.mid')
         sock._record_out(data[h:])
